@@ -20,6 +20,7 @@ from .. import c11_meshes as M
 from ..core import TranslateError, cbool, clist, cnat, cnats, cz, np_seed
 
 KINDS = M.KINDS
+NV_OF = {'f': None}     # set by translate(): the number interior_nodes complements in
 REFDOM = {'line': 'RefLine', 'tri': 'RefTri', 'quad': 'RefQuad', 'tet': 'RefTet', 'hex': 'RefHex', 'wedge': 'RefWedge'}
 
 
@@ -93,8 +94,18 @@ def translate():
             'return np.setdiff1d(np.arange(self.edges.shape[1], dtype=np.int32), self.boundary_edges())', 'Mesh3D.interior_edges')
     for nm, fn in (('boundary_facets', 'return np.nonzero(self.f2t[1] == -1)[0].astype(np.int32)'),
                    ('boundary_nodes', 'return np.unique(self.facets[:, self.boundary_facets()])'),
-                   ('interior_nodes', 'return np.setdiff1d(np.arange(0, self.p.shape[1]), self.boundary_nodes())')):
+                   ):
         _expect(t2.only(_body(t2.find_def(tree, nm, 'Mesh')), nm + ' body'), fn, 'Mesh.' + nm)
+    # interior_nodes: complement of the boundary nodes in range(number of vertices); the source may spell that number as the
+    # number of points or as max(t) + 1 (they differ for higher-order meshes only)
+    got = t2.src(t2.only(_body(t2.find_def(tree, 'interior_nodes', 'Mesh')), 'interior_nodes body'))
+    spell = {'return np.setdiff1d(np.arange(0, self.p.shape[1]), self.boundary_nodes())': lambda m: int(m.p.shape[1]),
+             'return np.setdiff1d(np.arange(0, self.nvertices), self.boundary_nodes())': lambda m: int(m.nvertices)}
+    if got not in spell:
+        raise TranslateError('Mesh.interior_nodes: ' + got)
+    NV_OF['f'] = spell[got]
+    nvp = t2.find_def(tree, 'nvertices', 'Mesh')
+    _expect(t2.only(_body(nvp), 'nvertices body'), 'return np.max(self.t) + 1', 'Mesh.nvertices')
     # --- per mesh class: refdom, boundary refdom, sort flag
     lines = []
     names = {}
@@ -195,7 +206,8 @@ def tables2(m):
 
 
 def case_input(kind, m):
-    return f'(K{kind}, {cnat(m.p.shape[1])}, {ccols(m.t)})'
+    nvf = NV_OF['f'] or (lambda mm: int(mm.p.shape[1]))
+    return f'(K{kind}, {cnat(nvf(m))}, {ccols(m.t)})'
 
 
 # ------------------------------------------------------------------------------ the check
@@ -411,6 +423,10 @@ def oracle_mesh(kind, m, manifold=True):
     p2t = m.p2t
     if p2f.shape != (nf, nv) or {(int(i), int(j)) for i, j in zip(*p2f.nonzero())} != {(f, int(v)) for f in range(nf) for v in fac[:, f]}:
         bad.append(('p2f', 'nonzero pattern differs from facet membership'))
+    for nmx, Ax in (('p2f', p2f), ('p2t', p2t)):
+        vals = sorted(set(Ax.tocsc().data.tolist()) - {0})
+        if vals not in ([1], []):
+            bad.append((nmx, f'incidence matrix has entries {vals}; an incidence matrix is 0/1'))
     if p2t.shape != (nt, nv) or {(int(i), int(j)) for i, j in zip(*p2t.nonzero())} != {(e, int(v)) for e in range(nt) for v in t[:, e]}:
         bad.append(('p2t', 'nonzero pattern differs from cell membership'))
     if not three_d:
@@ -436,6 +452,10 @@ def oracle_mesh(kind, m, manifold=True):
     p2e = m.p2e
     if p2e.shape != (ne, nv) or {(int(i), int(j)) for i, j in zip(*p2e.nonzero())} != {(g, int(v)) for g in range(ne) for v in edg[:, g]}:
         bad.append(('p2e', 'nonzero pattern differs from edge membership'))
+    for nmx, Ax in (('p2e', p2e), ('e2t', m.e2t)):
+        vals = sorted(set(Ax.tocsc().data.tolist()) - {0})
+        if vals not in ([1], []):
+            bad.append((nmx, f'incidence matrix has entries {vals}; an incidence matrix is 0/1'))
     e2t = m.e2t
     nz = {(int(i), int(j)) for i, j in zip(*e2t.nonzero())}
     t2e = np.asarray(m.t2e)
@@ -484,6 +504,41 @@ def _big_mesh(rng, kind, quick):
     return M.build(kind, p, t), info
 
 
+def oracle_on_facet(kind):
+    """Refdom.on_facet(i, X) (used to locate points on reference facets) against the geometry: true in the relative interior
+    of facet i (away from its boundary by more than the tolerance), false on the other facets' interiors, false for points
+    of the facet's plane outside the bounding box of the reference cell; returns list of messages"""
+    import skfem.refdom as R
+    r = getattr(R, REFDOM[kind])
+    try:
+        r.on_facet(0, np.zeros((r.p.shape[0], 1)))
+    except NotImplementedError:
+        return []
+    P = np.asarray(r.p, dtype=float)
+    fslots = [sorted(set(s)) for s in r.facets]
+    cen = [P[:, s].mean(axis=1) for s in fslots]
+    cell_c = P.mean(axis=1)
+    bad = []
+    for i, s in enumerate(fslots):
+        inside = [cen[i]] + [0.6 * cen[i] + 0.4 * P[:, v] for v in s]
+        outside = []
+        for k in range(P.shape[0]):         # leave the bounding box of the reference cell along every direction the facet extends in
+            if np.ptp(P[k, s]) > 0:
+                for val in (-0.25, 1.25):
+                    x = cen[i].copy()
+                    x[k] = val
+                    outside.append(x)
+        elsewhere = [cen[j] for j in range(len(fslots)) if j != i] + [cell_c]
+        for X, want, what in [(x, True, 'a point of the facet') for x in inside] + \
+                [(x, False, 'a point of the plane of the facet outside the reference cell') for x in outside] + \
+                [(x, False, 'a point off the facet') for x in elsewhere]:
+            got = bool(np.asarray(r.on_facet(i, X[:, None])).all())
+            if got != want:
+                bad.append(f'{r.__name__}.on_facet({i}, {np.round(X, 4).tolist()}) = {got} for {what} (facet vertices {s})')
+                break
+    return bad
+
+
 def euler_defect(kind, m):
     """V - E + F - C (3-D), V - F + C (2-D), V - C (1-D) minus 1: zero for a mesh of a ball"""
     nv, nf, nt = m.p.shape[1], m.facets.shape[1], m.t.shape[1]
@@ -504,10 +559,25 @@ def _oracle(ctx, rng):
         for table, msg in oracle_mesh('wedge', m, True):
             ctx.fail(f'wedge:{table}', f'MeshWedge1 (two stacked wedges, t = {m.t.T.tolist()}): {msg}',
                      {'kind': 'wedge', 'p': pw.tolist(), 't': m.t.tolist(), 'table': table})
+    # higher-order meshes: the boundary / interior NODE sets are about the vertices (numbers < nvertices), not the extra points
+    for cls, nref in ((skfem.MeshTri2, 1), (skfem.MeshQuad2, 1), (skfem.MeshTet2, 1), (skfem.MeshHex2, 1), (skfem.MeshTri2, 0)):
+        m2 = cls().refined(nref) if nref else cls()
+        nv2 = int(np.max(m2.t)) + 1
+        fac2 = np.asarray(m2.facets)
+        want_b = sorted({int(v) for f in range(fac2.shape[1]) if m2.f2t[1, f] == -1 for v in fac2[:, f]})
+        got_b, got_i = m2.boundary_nodes().tolist(), m2.interior_nodes().tolist()
+        ctx.count(('second-order', cls.__name__, nref), nontrivial=True)
+        if got_b != want_b or got_i != sorted(set(range(nv2)) - set(want_b)):
+            ctx.fail(f'{cls.__name__}:boundary-interior-nodes', f'{cls.__name__}().refined({nref}): boundary_nodes / interior_nodes = '
+                     f'{got_b[:8]}... / {got_i[:8]}... are not the vertices of single-neighbour facets and their complement among the '
+                     f'{nv2} vertices (the mesh has {m2.p.shape[1]} points)',
+                     {'kind': cls.__name__, 'refined': nref, 'table': 'second-order-nodes'})
     for kind in KINDS:
         ctx.count(('refdom', kind), nontrivial=False)
         for table, msg in oracle_refdom(kind):
             ctx.fail(f'{kind}:refdom-{table}', f'{REFDOM[kind]}: {msg}', {'kind': kind, 'table': table, 'message': msg})
+        for msg in oracle_on_facet(kind):
+            ctx.fail(f'{kind}:on_facet', msg, {'kind': kind, 'table': 'on_facet', 'message': msg})
         # structured, uncarved meshes are balls: Euler characteristic 1 (any numbering / local orientation)
         for _ in range(3):
             p, t, info = M.gen_raw(rng, kind, maxcells=30, carve=False)
@@ -608,7 +678,11 @@ def _equivariance(ctx, rng, kind, m):
 def replay(ctx, data):
     """re-run the oracle on the recorded mesh"""
     inp = data['input']
+    if inp.get('table') == 'second-order-nodes':
+        return run(ctx)
     if 'p' not in inp:          # a reference-cell table
+        for msg in oracle_on_facet(inp['kind']):
+            ctx.fail(f"{inp['kind']}:on_facet", msg, inp)
         for table, msg in oracle_refdom(inp['kind']):
             ctx.fail(f"{inp['kind']}:refdom-{table}", msg, inp)
         ctx.log('replay', data.get('key'), '->', [f['key'] for f in ctx.failures] or 'no failure on this tree')
